@@ -135,6 +135,23 @@ impl FileDesc {
             ));
         }
 
+        if oti.fec_encoding_id == oti::FECEncodingID::ReedSolomonGF28
+            || oti.fec_encoding_id == oti::FECEncodingID::ReedSolomonGF28UnderSpecified
+        {
+            // The Reed Solomon GF(2^8) codec cannot encode a block of more than 256 symbols (source + parity)
+            let (a_large, _, _, _) = partition::block_partitioning(
+                oti.maximum_source_block_length as u64,
+                object.transfer_length,
+                oti.encoding_symbol_length as u64,
+            );
+            if a_large + oti.max_number_of_parity_symbols as u64 > 256 {
+                return Err(FluteError::new(format!(
+                    "Source blocks of {} symbols and {} parity symbols cannot be encoded by Reed Solomon GF(2^8), your object is incompatible with the FEC parameters of your OTI",
+                    a_large, oti.max_number_of_parity_symbols
+                )));
+            }
+        }
+
         if oti.fec_encoding_id == oti::FECEncodingID::RaptorQ
             || oti.fec_encoding_id == oti::FECEncodingID::Raptor
         {
